@@ -31,6 +31,11 @@ def m8(cfg) -> typing.List[int]: ...
 def m9(cfg, a) -> "Config": ...
 def m10(cfg, b: float = 1.0) -> None: ...
 def m11(cfg, a, b, *, k, **rest) -> str: ...
+# annotations that are typing constructs rather than classes
+def t0(cfg, x: typing.Optional[int] = None): ...
+def t1(cfg, x: typing.List[str], *, k: typing.Dict[str, int] = None) -> typing.Optional[str]: ...
+def t2(cfg, cb: typing.Callable[[int], str] = None, *rest: int): ...
+def t3(cfg, x: "typing.List[int]", y: typing.Union[int, str] = 1) -> "None": ...
 
 
 def _local_class_method():
@@ -62,7 +67,7 @@ def _same_name(kind: int):
 
 
 METHODS = (m0, m1, m2, m3, m4, m5, m6, m7, m8, m9, m10, m11, _same_name(0), _same_name(1), _same_name(2),
-           lambda cfg, x: x, lambda cfg, *, y=2: y, _USES_LOCAL)
+           lambda cfg, x: x, lambda cfg, *, y=2: y, _USES_LOCAL, t0, t1, t2, t3)
 NMETH = len(METHODS)
 
 
@@ -136,7 +141,20 @@ def _stub(f_scalars: bool, f_containers: bool, f_nested: bool, f_ct: bool, f_vir
                 name = "meth%d" % n
                 instance_method(schema, name)(METHODS[i])
                 methods[name] = METHODS[i]
-    fields_before = list(schema._fields.keys())
+    def _deep_fields():
+        # the field set at EVERY depth (nested schemas, schemas wrapped by config types and used as list items)
+        from cincoconfig import get_all_fields
+        from cincoconfig.core import ConfigTypeField
+        from vf.hlib.stubs import untraced
+        with untraced():        # plain bookkeeping over concrete objects
+            out = [p for p, _, _ in get_all_fields(schema)]
+            for key, fld in list(schema._fields.items()):
+                if isinstance(fld, ConfigTypeField):    # (never probe attributes of a Schema: that creates fields)
+                    out += [key + ":" + p for p, _, _ in get_all_fields(fld.config_type.__schema__)]
+        # (dunder names: the symbolic executor's tracer probes __name__ / __self__ on callables, and a Schema
+        #  answers every unknown attribute by creating a sub-schema - an artefact of tracing, not of the library)
+        return [p for p in out if "__" not in p]
+    fields_before = _deep_fields()
     if f_nested and target == 0 and not methods and not f_ct:
         # the stub of a NESTED schema (a field of another schema) describes that schema, not its owner
         text = generate_stub(schema.sub, class_name="Nested")
@@ -163,7 +181,8 @@ def _stub(f_scalars: bool, f_containers: bool, f_nested: bool, f_ct: bool, f_vir
     hold("stub", again == text, "a second generation gives a different stub (the first one had a side effect)")
     if target == 0:
         hold("stub", third == text, "third generation differs")
-    hold("stub", list(schema._fields.keys()) == fields_before, "generate_stub changed the schema")
+    hold("stub", _deep_fields() == fields_before,
+         lambda: "generate_stub changed the schema's field set: %r -> %r" % (fields_before, _deep_fields()))
     hold("stub", "runtime_extra" not in schema() , "a configuration built afterwards carries the other's dynamic key")
     if cfg_before is not None:
         hold("stub", dict(obj.to_tree()) == cfg_before, "generate_stub changed the configuration")
@@ -191,7 +210,7 @@ def _stub(f_scalars: bool, f_containers: bool, f_nested: bool, f_ct: bool, f_vir
 
 
 WHAT = ("symbolic schema shape (presence of scalar / container / nested schema / config type / virtual / "
-        "secure+challenge fields, up to two instance methods drawn from 18 functions (12 signature shapes, three functions sharing one qualified name, two lambdas, one annotated with a function-local class), target = Schema | Config "
+        "secure+challenge fields, up to two instance methods drawn from 22 functions (12 signature shapes, four with typing-construct annotations, three functions sharing one qualified name, two lambdas, one annotated with a function-local class), target = Schema | Config "
         "| ConfigType): the stub parses, declares one class with an annotated attribute per field, __init__ takes "
         "exactly the persistent fields, one method per instance method with the same parameter names and kinds; "
         "nothing on stdout; schema and configuration unchanged")
@@ -214,10 +233,10 @@ def _mk_fields(target: int):
 def _mk_methods(mi: int):
     @obligation(prop="C20", name="stub_methods_m%d" % mi, group="stub_methods", sites=("stub",), encodes=ENC,
                 budget={"quick": 240, "thorough": 600},
-                what=WHAT + " [first method shape %d, second method any of 18 or none, all three targets]" % mi)
+                what=WHAT + " [first method shape %d, second method any of 22 or none, all three targets]" % mi)
     def ob(mj: int, target: int, f_virtual: bool) -> bool:
         """
-        pre: -1 <= mj < 18 and 0 <= target <= 2
+        pre: -1 <= mj < 22 and 0 <= target <= 2
         post: _
         """
         return _stub(False, False, False, False, f_virtual, False, mi, mj, target)
